@@ -57,6 +57,7 @@ static dispatch_group_t G[MAXG];
 static dispatch_semaphore_t SEM[MAXSEM];
 static long sem_init[MAXSEM];
 static _Atomic int sem_fwaiters[MAXSEM];
+static int sem_jsignals[MAXSEM], sem_fwait_ops[MAXSEM];
 static _Atomic long sem_succ[MAXSEM];
 static dispatch_once_t ONCE[MAXONCE];
 static uint64_t once_val[MAXONCE];
@@ -204,18 +205,25 @@ static void exec_op(op_t *op) {
 		logev(EV_RET, op->id, -1, 0);
 		break; }
 	case K_OPEN: logev(EV_CALL, op->id, -1, op->kind); flag_set(&gate_open[op->a]); logev(EV_RET, op->id, -1, 0); break;
-	case K_SUSPEND:
-		logev(EV_CALL, op->id, -1, op->kind); dispatch_suspend(Q[op->a]); logev(EV_RET, op->id, -1, 0);
-		tok_create((int)op->b, TKK_RESUME, (int)op->a, op->id);
-		break;
-	case K_RESUME: case K_ACTIVATE: case K_GLEAVE:
-		if (tok_claim((int)op->b)) {
-			logev(EV_CALL, op->id, (int32_t)op->b, op->kind);
-			TOK[op->b].op = (op->kind == K_GLEAVE) ? op->id : TOK[op->b].op;
-			tok_discharge((int)op->b);
-			logev(EV_RET, op->id, (int32_t)op->b, 0);
-		} else logev(EV_SKIP, op->id, (int32_t)op->b, 0);
-		break;
+	case K_SUSPEND: {
+		long n = op->c > 0 ? op->c : 1;       // nested suspends: one token per level
+		for (long i = 0; i < n; i++) {
+			logev(EV_CALL, op->id, (int32_t)(op->b + i), op->kind); dispatch_suspend(Q[op->a]); logev(EV_RET, op->id, (int32_t)(op->b + i), 0);
+			tok_create((int)(op->b + i), TKK_RESUME, (int)op->a, op->id);
+		}
+		break; }
+	case K_RESUME: case K_ACTIVATE: case K_GLEAVE: {
+		long n = (op->kind == K_RESUME && op->c > 0) ? op->c : 1;
+		for (long i = 0; i < n; i++) {
+			int t = (int)(op->b + i);
+			if (tok_claim(t)) {
+				logev(EV_CALL, op->id, t, op->kind);
+				TOK[t].op = (op->kind == K_GLEAVE) ? op->id : TOK[t].op;
+				tok_discharge(t);
+				logev(EV_RET, op->id, t, 0);
+			} else logev(EV_SKIP, op->id, t, 0);
+		}
+		break; }
 	case K_GENTER:
 		logev(EV_CALL, op->id, (int32_t)op->b, op->kind); dispatch_group_enter(G[op->a]); logev(EV_RET, op->id, (int32_t)op->b, 0);
 		tok_create((int)op->b, TKK_LEAVE, (int)op->a, op->id);
@@ -249,6 +257,7 @@ static void exec_op(op_t *op) {
 		break; }
 	case K_GNOTIFY: {
 		atomic_fetch_add(&pending, 1);
+		fill_payload(op);
 		logev(EV_CALL, op->id, -1, op->kind);
 		if (op->b & 1) dispatch_group_notify(G[op->c], Q[op->a], ^{ item_run(op, -1); }); else dispatch_group_notify_f(G[op->c], Q[op->a], op, item_f);
 		logev(EV_RET, op->id, -1, 0);
@@ -303,6 +312,7 @@ static void exec_op(op_t *op) {
 	case K_BTEST: { logev(EV_CALL, op->id, -1, op->kind); long r = dispatch_block_testcancel(BLK[op->a]); logev(EV_RET, op->id, -1, r); break; }
 	case K_BNOTIFY:
 		atomic_fetch_add(&pending, 1);
+		fill_payload(op);
 		logev(EV_CALL, op->id, -1, op->kind);
 		dispatch_block_notify(BLK[op->a], Q[op->c], ^{ item_run(op, -1); });
 		logev(EV_RET, op->id, -1, 0);
@@ -317,7 +327,7 @@ static int janitor_pending_count(void) {
 	int n = 0;
 	for (int t = 0; t <= ntok_max; t++) if (atomic_load(&TOK[t].state) == TK_CREATED) n++;
 	for (int g = 0; g < MAXGATE; g++) if (!gate_hard[g] && atomic_load(&gate_waiters[g]) > 0 && !atomic_load(&gate_open[g])) n++;
-	for (int s = 0; s < MAXSEM; s++) if (atomic_load(&sem_fwaiters[s]) > 0) n++;
+	for (int s = 0; s < MAXSEM; s++) if (atomic_load(&sem_fwaiters[s]) > 0 && sem_jsignals[s] < sem_fwait_ops[s] + 1) n++;
 	return n;
 }
 static void janitor_discharge_one(void) {
@@ -327,7 +337,8 @@ static void janitor_discharge_one(void) {
 	for (int t = 0; t <= ntok_max; t++) if (atomic_load(&TOK[t].state) == TK_CREATED && tok_claim(t)) {
 		logev(EV_JCALL, TOK[t].op, t, TOK[t].kind); tok_discharge(t); logev(EV_JRET, TOK[t].op, t, TOK[t].kind); return;
 	}
-	for (int s = 0; s < MAXSEM; s++) if (atomic_load(&sem_fwaiters[s]) > 0) {
+	for (int s = 0; s < MAXSEM; s++) if (atomic_load(&sem_fwaiters[s]) > 0 && sem_jsignals[s] < sem_fwait_ops[s] + 1) {
+		sem_jsignals[s]++;
 		FLAGW[MAXOP - 1 - s] += 1;
 		logev(EV_JCALL, -1, s, K_SSIGNAL); dispatch_semaphore_signal(SEM[s]); logev(EV_JRET, -1, s, K_SSIGNAL); return;
 	}
@@ -392,7 +403,8 @@ static int load_program(const char *path) {
 			ctx_t *cx = ctx_get(cid);
 			if (cx->nops == cx->cap) { cx->cap = cx->cap ? cx->cap * 2 : 8; cx->ops = realloc(cx->ops, (size_t)cx->cap * sizeof(op_t *)); }
 			cx->ops[cx->nops++] = op;
-			if ((k == K_SUSPEND || k == K_GENTER) && b > ntok_max) ntok_max = (int)b;
+			if ((k == K_SUSPEND || k == K_GENTER) && b + (c > 0 && k == K_SUSPEND ? c : 1) > ntok_max) ntok_max = (int)(b + (c > 0 && k == K_SUSPEND ? c : 1));
+			if (k == K_SWAIT && c == 0 && a >= 0 && a < MAXSEM) sem_fwait_ops[a]++;
 		}
 	}
 	// bodies
